@@ -1415,6 +1415,26 @@ NiShape* NifFile::CloneShape(NiShape* srcShape, const std::string& destShapeName
 		}
 	}
 
+	if (srcNif != this) {
+		// Skeleton root of the source file: same-named node of this file or its root node
+		auto rebindSkeletonRoot = [&](NiRef& targetRef) {
+			NiNode* target = rootNode;
+			auto srcTarget = srcNif->hdr.GetBlock<NiNode>(targetRef.index);
+			if (srcTarget && srcTarget != srcRootNode) {
+				auto node = FindBlockByName<NiNode>(srcTarget->name.get());
+				if (node)
+					target = node;
+			}
+
+			targetRef.index = target ? GetBlockID(target) : NIF_NPOS;
+		};
+
+		if (auto destSkinInst = dynamic_cast<NiSkinInstance*>(destBoneCont))
+			rebindSkeletonRoot(destSkinInst->targetRef);
+		else if (auto destBSSkinInst = dynamic_cast<BSSkinInstance*>(destBoneCont))
+			rebindSkeletonRoot(destBSSkinInst->targetRef);
+	}
+
 	// Add bones to container if used in skin
 	if (destBoneCont) {
 		for (auto& boneName : srcBoneList) {
